@@ -333,4 +333,46 @@ func init() {
 		explanation: "the real mappers (toServiceMethods, goutil.SnakeString, strings.Replace/ToLower/Trim, path.Join) are executed on symbolic identifiers; the real reg/getCall/getPush/bindCall/bindPush with symbolic requested names (map lookup forks on byte-wise equality with the registered keys); conflicts must reach Fatalf",
 		bounds:      "identifiers <= 3 (quick) / 6 (thorough) bytes, 3 registrations, requested name length within +-1 of a registered name",
 	})
+	registerCheck(&checkSpec{
+		id: "C16", dirs: []string{"plugin/auth"}, level: "other",
+		jobs: func(tier string) []job {
+			var js []job
+			add := func(a ...int) { js = append(js, J("plugin/auth", "VX_C16_Auth", a...)) }
+			// first, nBytes, pipelined, otherPluginAfter
+			add(0, 0, 1, 1)
+			add(0, 0, 1, 0)
+			add(1, 0, 1, 1)
+			add(1, 0, 0, 0)
+			add(2, 0, 1, 1)
+			add(4, 0, 0, 1)
+			for _, n := range []int{1, 3, 4, 5, 6} {
+				add(3, n, 0, 1)
+			}
+			if tier == "thorough" {
+				for n := 7; n <= 12; n++ {
+					add(3, n, 0, 1)
+				}
+				add(2, 0, 1, 0)
+			}
+			return js
+		},
+		assumptions: append(append([]string{}, rootAssume...), "canonical checker (calls RecvOnce once, compares a one-byte token); handlers are the unknown-call/unknown-push handlers (no reflection-based routes)"),
+		explanation: "the real ServeConn, newSession, postAccept, auth checker PostAccept, PreReceive/PreSend and raw Unpack are executed on a scripted connection whose first bytes are an AUTH_CALL with symbolic token, a CALL, a frame of symbolic type, an arbitrary symbolic byte string or nothing, optionally followed by pipelined CALL/PUSH frames; handler and per-message hook counters must stay zero unless authentication succeeded",
+		bounds:      "first frame / <= 6 (quick) 12 (thorough) arbitrary bytes (message size limit 24 for that case), 2 pipelined frames, one other accept plugin before or after the checker",
+	})
+	registerCheck(&checkSpec{
+		id: "C18", dirs: []string{"plugin/overloader"}, level: "other",
+		jobs: func(tier string) []job {
+			js := []job{J("plugin/overloader", "VX_C18_ConnHistory", 1, 3, 0), J("plugin/overloader", "VX_C18_ConnHistory", 1, 3, 1), J("plugin/overloader", "VX_C18_ConnHistory", 2, 4, 0),
+				J("plugin/overloader", "VX_C18_ConnRace", 1), J("plugin/overloader", "VX_C18_ConnRace", 2),
+				J("plugin/overloader", "VX_C18_QPS", 2, 3), J("plugin/overloader", "VX_C18_QPS", 1, 1), J("plugin/overloader", "VX_C18_QPSRace", 1, 1, 1, 2), J("plugin/overloader", "VX_C18_QPSRace", 2, 2, 3, 2)}
+			if tier == "thorough" {
+				js = append(js, J("plugin/overloader", "VX_C18_ConnHistory", 2, 5, 1), J("plugin/overloader", "VX_C18_ConnHistory", 1, 5, 1), J("plugin/overloader", "VX_C18_QPSRace", 3, 3, 4, 2))
+			}
+			return js
+		},
+		assumptions: append(append([]string{}, rootAssume...), "time.Ticker never fires by itself: refill ticks are explicit calls of updateToken", "concurrency harnesses explore all schedules with <= 2 pre-emptions at sync/atomic operations (sequentially consistent)"),
+		explanation: "connection limit: solver-chosen histories of accepted/rejected/closed connections through the real ServeConn + overloader hooks; races: two concurrent PostAccept for the last slot and k concurrent take() against one refill tick explored over all schedules with <= 2 pre-emptions (schedule choices are decisions of the symbolic execution); rate limit: sequential take/refill arithmetic",
+		bounds:      "N <= 2, histories <= 4 (quick) / 5, 2 racing accepts, <= 5 takers + 1 tick, <= 2 pre-emptions",
+	})
 }
